@@ -2,11 +2,13 @@ package main
 
 import (
 	"bytes"
+	"context"
 	"fmt"
 	"os"
 	"os/exec"
 	"path/filepath"
 	"strings"
+	"time"
 
 	"github.com/koron-go/z80/internal/zex"
 )
@@ -116,7 +118,9 @@ func checkC17(c *Ctx) {
 			c.Capped("converter binary not built (VERIF_CONVERT_CASE unset): leg (c) skipped")
 			continue
 		}
-		cmd := exec.Command(conv)
+		cctx, ccancel := context.WithTimeout(context.Background(), 2*time.Minute)
+		cmd := exec.CommandContext(cctx, conv)
+		defer ccancel()
 		cmd.Stdin = bytes.NewReader(asm)
 		var outb, errb bytes.Buffer
 		cmd.Stdout, cmd.Stderr = &outb, &errb
